@@ -28,6 +28,7 @@ def inputs(tier):
     for d in corpus.pairs(tier, kinds_a=('ASP', 'HIS', 'CYS', 'TYR', 'N+'), kinds_b=('LYS', 'GLU', 'ARG', 'C-', 'CA', 'MAM', 'ACT', 'CYS', 'SER', 'ASN'),
                           dists=(3.0,) if tier == 'quick' else (2.03, 3.0, 6.0), levels=('mid',) if tier == 'quick' else ('mid', 'deep')):
         out.append(dict(src='corpus', d=d))
+    out.append(dict(src='corpus', d=corpus.pair_desc('CYS', 'CYS', 2.03, 'mid')))     # a disulfide: listing it must not make it titrate
     for d in corpus.clusters(tier)[:: (1 if tier == 'thorough' else 3)]:
         out.append(dict(src='corpus', d=d))
     for d in corpus.cutouts(tier, radius=9.0)[:: (1 if tier == 'thorough' else 2)]:
